@@ -22,6 +22,17 @@ def main():
         return 2
     try:
         r = h(c)
+        if not r.get("reproduced") and c.get("jac") == {}:
+            # a structural counterexample: its values are free.  Generic values expose faults that move rows / columns around, all-zero local
+            # Jacobians expose faults keyed to flat (zero-gradient) outputs: both instantiations are tried
+            import _lib
+            _lib.FILL[0] = "zeros"
+            try:
+                r2 = h(c)
+            finally:
+                _lib.FILL[0] = "generic"
+            if r2.get("reproduced"):
+                r = dict(r2, instantiated_with="all-zero local Jacobians")
     except (ValueError, RuntimeError, TypeError, IndexError, KeyError, ZeroDivisionError, AttributeError) as e:
         # the model saw the real code raise on arguments that are VALID for the property (the counterexample says so: `raised`), and the real
         # stack raises as well while the scenario is re-executed: that is the violation.  Without `raised` it is an error of the replay.
